@@ -52,12 +52,14 @@ def run(prop, tier):
         states, transitions = r.distinct, r.generated
         cov["tlc_configs"]["Codes_NumWords2"] = {"distinct_states": r.distinct, "states_generated": r.generated,
                                                  "wall_s": round(r.wall, 1), "completion_cases": len(cmps), "code_cases": len(codes)}
-        if not quick:
-            r3, cmps3, _, _ = run_codes_model(wd, 3, 1)
+        more = {}
+        for nw in ((3,) if quick else (3, 4, 5)):
+            r3, cmps3, _, _ = run_codes_model(wd, nw, 1)
             states += r3.distinct
             transitions += r3.generated
-            cov["tlc_configs"]["Codes_NumWords3"] = {"distinct_states": r3.distinct, "states_generated": r3.generated,
-                                                     "wall_s": round(r3.wall, 1), "completion_cases": len(cmps3)}
+            more[nw] = cmps3
+            cov["tlc_configs"]["Codes_NumWords%d" % nw] = {"distinct_states": r3.distinct, "states_generated": r3.generated,
+                                                           "wall_s": round(r3.wall, 1), "completion_cases": len(cmps3)}
         odd, even = lists[1], lists[2]
         wl = PGPWordList()
         # ---------------- 2a. completions: one implementation test per enumerated prefix
@@ -90,8 +92,9 @@ def run(prop, tier):
                                      "expected": sorted(expected), "not_extending": bad})
                         return
         check_completions(cmps, 2)
-        if not quick:
-            check_completions(cmps3, 3)
+        for nw, cs in more.items():
+            # (the cases with fewer complete words than NumWords-1 repeat those of the shorter codes but for the suffix)
+            check_completions(cs if nw == 3 or not quick else [c for c in cs if c[1] >= nw - 2], nw)
         cov["samples"].append({"case": "get_completions", "prefix": cmps[5][2], "count": cmps[5][1],
                                "expected_words": sorted(cmps[5][3])[:5]})
         # ---------------- 2b. choose_words as a function of the random bytes
